@@ -532,7 +532,9 @@ impl<Aux> Vm<'_, Aux> {
                     let obj = self.init_native_function(handle).map_err(|err| {
                         payload_to_error(err, src_ptr, &self.runtime_data.call_stack)
                     })?;
-                    let val = Value::Object(obj.0);
+                    // release the guard first: it must not outlive the object if the push below fails
+                    let obj = obj.into_inner();
+                    let val = Value::Object(obj);
                     self.runtime_data
                         .value_stack
                         .push(val)
@@ -541,10 +543,10 @@ impl<Aux> Vm<'_, Aux> {
                             // free the object on Stackoverflow
                             // it is the most recently registered object, forget it first so the
                             // runtime does not free it a second time
-                            if self.runtime_data.object_list.last() == Some(&obj.0) {
+                            if self.runtime_data.object_list.last() == Some(&obj) {
                                 self.runtime_data.object_list.pop();
                             }
-                            self.runtime_data.free_object(obj.0);
+                            self.runtime_data.free_object(obj);
                             payload_to_error(err, src_ptr, &self.runtime_data.call_stack)
                         })?;
                 }
@@ -558,7 +560,9 @@ impl<Aux> Vm<'_, Aux> {
                         payload_to_error(err, src_ptr, &self.runtime_data.call_stack)
                     })?;
 
-                    let val = Value::Object(obj.0);
+                    // release the guard first: it must not outlive the object if the push below fails
+                    let obj = obj.into_inner();
+                    let val = Value::Object(obj);
 
                     self.runtime_data
                         .value_stack
@@ -568,10 +572,10 @@ impl<Aux> Vm<'_, Aux> {
                             // free the object on Stackoverflow
                             // it is the most recently registered object, forget it first so the
                             // runtime does not free it a second time
-                            if self.runtime_data.object_list.last() == Some(&obj.0) {
+                            if self.runtime_data.object_list.last() == Some(&obj) {
                                 self.runtime_data.object_list.pop();
                             }
-                            self.runtime_data.free_object(obj.0);
+                            self.runtime_data.free_object(obj);
                             payload_to_error(err, src_ptr, &self.runtime_data.call_stack)
                         })?;
                 }
@@ -585,7 +589,9 @@ impl<Aux> Vm<'_, Aux> {
                         payload_to_error(err, src_ptr, &self.runtime_data.call_stack)
                     })?;
 
-                    let val = Value::Object(obj.0);
+                    // release the guard first: it must not outlive the object if the push below fails
+                    let obj = obj.into_inner();
+                    let val = Value::Object(obj);
 
                     self.runtime_data
                         .value_stack
@@ -595,10 +601,10 @@ impl<Aux> Vm<'_, Aux> {
                             // free the object on Stackoverflow
                             // it is the most recently registered object, forget it first so the
                             // runtime does not free it a second time
-                            if self.runtime_data.object_list.last() == Some(&obj.0) {
+                            if self.runtime_data.object_list.last() == Some(&obj) {
                                 self.runtime_data.object_list.pop();
                             }
-                            self.runtime_data.free_object(obj.0);
+                            self.runtime_data.free_object(obj);
                             payload_to_error(err, src_ptr, &self.runtime_data.call_stack)
                         })?;
                 }
